@@ -125,6 +125,12 @@ fn canonical_in(ast: &Ast, idx: AstIndex, opts: CanonOpts, depth: usize, parent:
             }
         }
     }
+    if opts.ignore_cosmetic && my_kind == "TempTuple" && matches!(parent, "Assign" | "MultiAssign") {
+        // `a, b = 1, 2` and `a, b = (1, 2)`: the paren-free spelling of the tuple on the right-hand side
+        if let (Some(a), Some(b)) = (out.find('['), out.rfind(']')) {
+            return format!("Tuple {{ elements: {}, parentheses: _ }}", &out[a..=b]);
+        }
+    }
     if opts.ignore_cosmetic && out.starts_with("Block([<") {
         // a block holding a single expression is the indented spelling of that expression
         let kids = children(ast, idx);
